@@ -288,6 +288,7 @@ class HTTPApiDecoder:
         model.SpecificAssetId: XMLConstructables.SPECIFIC_ASSET_ID,
         model.Qualifier: XMLConstructables.QUALIFIER,
         model.Submodel: XMLConstructables.SUBMODEL,
+        model.ConceptDescription: XMLConstructables.CONCEPT_DESCRIPTION,
         model.SubmodelElement: XMLConstructables.SUBMODEL_ELEMENT,
         model.Reference: XMLConstructables.REFERENCE
     }
